@@ -18,7 +18,7 @@ def mkMeta (ns name uid ts gen : String) (ann : String := "") : Meta :=
 def parseRules (s : String) : List (String × List String) :=
   (splitOn s "&").map fun r =>
     match r.splitOn ">" with
-    | [h, ps] => (h, splitOn ps "+")
+    | [h, ps] => (h, (splitOn ps "+").map fun p => if p == "E" then "" else p)      -- `E` = the empty path
     | [h] => (h, [])
     | _ => ("", [])
 
